@@ -1,0 +1,121 @@
+//! Verification hooks (compiled only with `--cfg libp2p_verif`): a public window onto the
+//! crate-private mplex codec.  Add-only; every function merely *calls* existing items of
+//! `crate::codec` (`Codec::new`, `Decoder::decode`, `Encoder::encode`, `LocalStreamId::dialer`,
+//! `RemoteStreamId::into_local`, `Frame::remote_id`, `Display for LocalStreamId`).
+
+use std::io;
+
+use asynchronous_codec::{Decoder, Encoder};
+use bytes::{Bytes, BytesMut};
+
+use crate::codec::{Codec, Frame, LocalStreamId, RemoteStreamId};
+
+/// `codec::MAX_FRAME_SIZE`
+pub const MAX_FRAME_SIZE: usize = crate::codec::MAX_FRAME_SIZE;
+
+/// Kind of an mplex frame.
+#[derive(Debug, Clone, Copy, PartialEq, Eq)]
+pub enum Kind {
+    Open,
+    Data,
+    Close,
+    Reset,
+}
+
+/// A frame with its stream id spelled out: `dialer` is the role stored in the id the codec
+/// handled (`LocalStreamId.role` for frames to encode, `RemoteStreamId.role` for decoded ones).
+#[derive(Debug, Clone, PartialEq, Eq)]
+pub struct VFrame {
+    pub kind: Kind,
+    pub num: u64,
+    pub dialer: bool,
+    pub data: Vec<u8>,
+}
+
+/// `(num, is_dialer)` of a `LocalStreamId`, read through its `Display` impl
+/// (`"(num/initiator)"` / `"(num/receiver)"`); the fields are private to `codec`.
+fn local_parts(id: LocalStreamId) -> (u64, bool) {
+    let s = id.to_string();
+    let inner = &s[1..s.len() - 1];
+    let (num, role) = inner.split_once('/').expect("LocalStreamId display");
+    (num.parse().expect("LocalStreamId num"), role == "initiator")
+}
+
+fn remote_parts(id: RemoteStreamId) -> (u64, bool) {
+    // `into_local` keeps the number and flips the role
+    let (num, local_dialer) = local_parts(id.into_local());
+    (num, !local_dialer)
+}
+
+/// A `LocalStreamId` with the given number and role.  `Dialer` ids come from
+/// `LocalStreamId::dialer`; the `Listener` constructor is `cfg(test)` only, so a listener id is
+/// obtained the way the crate itself obtains one: by decoding an `Open` frame and calling
+/// `into_local()` (possible for `num < 2^61` only).
+fn local_id(num: u64, dialer: bool) -> Option<LocalStreamId> {
+    if dialer {
+        return Some(LocalStreamId::dialer(num));
+    }
+    if num >> 61 != 0 {
+        return None;
+    }
+    let mut buf = BytesMut::new();
+    let mut hb = unsigned_varint::encode::u64_buffer();
+    buf.extend_from_slice(unsigned_varint::encode::u64(num << 3, &mut hb));
+    buf.extend_from_slice(&[0]);
+    match Codec::new().decode(&mut buf) {
+        Ok(Some(f @ Frame::Open { .. })) => Some(f.remote_id().into_local()),
+        _ => None,
+    }
+}
+
+fn to_vframe(f: Frame<RemoteStreamId>) -> VFrame {
+    let (num, dialer) = remote_parts(f.remote_id());
+    let (kind, data) = match f {
+        Frame::Open { .. } => (Kind::Open, vec![]),
+        Frame::Data { data, .. } => (Kind::Data, data.to_vec()),
+        Frame::Close { .. } => (Kind::Close, vec![]),
+        Frame::Reset { .. } => (Kind::Reset, vec![]),
+    };
+    VFrame {
+        kind,
+        num,
+        dialer,
+        data,
+    }
+}
+
+/// The crate-private `Codec`, with frames translated to/from [`VFrame`].
+pub struct VCodec(Codec);
+
+impl Default for VCodec {
+    fn default() -> Self {
+        Self::new()
+    }
+}
+
+impl VCodec {
+    pub fn new() -> Self {
+        VCodec(Codec::new())
+    }
+
+    /// `<Codec as Decoder>::decode`
+    pub fn decode(&mut self, src: &mut BytesMut) -> io::Result<Option<VFrame>> {
+        Ok(self.0.decode(src)?.map(to_vframe))
+    }
+
+    /// `<Codec as Encoder>::encode`.  `None` when the requested `LocalStreamId` cannot be
+    /// constructed through the crate's own functions (listener role with `num >= 2^61`).
+    pub fn encode(&mut self, f: &VFrame, dst: &mut BytesMut) -> Option<io::Result<()>> {
+        let stream_id = local_id(f.num, f.dialer)?;
+        let frame = match f.kind {
+            Kind::Open => Frame::Open { stream_id },
+            Kind::Data => Frame::Data {
+                stream_id,
+                data: Bytes::copy_from_slice(&f.data),
+            },
+            Kind::Close => Frame::Close { stream_id },
+            Kind::Reset => Frame::Reset { stream_id },
+        };
+        Some(self.0.encode(frame, dst))
+    }
+}
